@@ -380,6 +380,26 @@ class Grower:
             if not a:
                 return False
             x, shp = a
+            if rng.random() < 0.25:
+                # several CONSTANT operands of different widths next to one activation (each must keep its own bytes)
+                axis = len(shp) - 1
+                widths = [rng.randint(1, 3), rng.randint(1, 3)]
+                ins = [x]
+                for w in widths:
+                    cs = list(shp)
+                    cs[axis] = w
+                    ins.append(self.const(cs, base="c"))
+                rng.shuffle(ins)
+                new = list(shp)
+                new[axis] = shp[axis] + sum(widths)
+                y = self.new_act(new)
+                opts = s.ConcatenationOptionsT()
+                opts.axis = axis
+                g.op(BO.CONCATENATION, ins, [y], OPT.ConcatenationOptions, opts)
+                self.out(y, new)
+                self.tags.add("concat_multi_const")
+                self.op_kinds.append(kind)
+                return True
             k = rng.randint(2, 3)
             ins = [x]
             for _ in range(k - 1):
@@ -464,7 +484,7 @@ class Grower:
 
 
 def grow_subgraph(g: G, rng, n_ops, prefix="", sig=None, kinds=None, share=0.0, shared_consts=None, p_unsupported=0.25,
-                  name_hazard=0.0, extra_outputs=0.3, allow_dead=0.1, const_output=0.0, const_kinds=None):
+                  name_hazard=0.0, extra_outputs=0.3, allow_dead=0.1, const_output=0.0, const_kinds=None, alias_sig=None):
     g.subgraph(name=(prefix or "main").encode())
     gr = Grower(g, rng, prefix, shared_consts)
     gr.const_kinds = const_kinds
@@ -542,6 +562,13 @@ def gen_model(rng, n_ops=None, n_subgraphs=1, kinds=None, share=0.0, own_buffers
         gr = grow_subgraph(g, rng, n, prefix=prefix, sig=sig, kinds=kinds, share=share, shared_consts=shared, **kw)
         info["tags"] |= gr.tags
         info["subgraphs"].append({"sig": sig, "int_inputs": [(g.sg.tensors[t].name.decode(), v) for t, v in gr.int_inputs], "ops": gr.op_kinds})
+        if kw.get("alias_sig", 0.08) and rng.random() < kw.get("alias_sig", 0.08) and g.m.signatureDefs:
+            # a second signature key exporting the SAME subgraph (legal; every signature must follow a retargeted output)
+            import copy as _copy
+            sd = _copy.deepcopy(g.m.signatureDefs[-1])
+            sd.signatureKey = (sig + "_alias").encode()
+            g.m.signatureDefs.append(sd)
+            info["tags"].add("two_signatures_one_subgraph")
     if n_subgraphs > 1:
         info["tags"].add("multi_subgraph")
     return g.bytes(), info
